@@ -626,6 +626,16 @@ func statusMix(p *workflow.Plan) map[string]int {
 	return m
 }
 
+func runningMix(p *workflow.Plan) map[string]int {
+	m := map[string]int{}
+	for k, v := range statusMix(p) {
+		if strings.HasSuffix(k, ":Running") {
+			m[strings.TrimSuffix(k, ":Running")] = v
+		}
+	}
+	return m
+}
+
 func countRunning(p *workflow.Plan) (n int) {
 	for k, v := range statusMix(p) {
 		if strings.HasSuffix(k, ":Running") {
@@ -656,7 +666,7 @@ func (f *fixer) fixPlanCase(p *workflow.Plan, n numbering, nonce string, script 
 	}
 	coq = fmt.Sprintf("(CPln %s %s %s %s %s)", scriptTerm(all, n, script), before, after, planCallsTerm(executed), e)
 	obs = map[string]any{"plan_status_after": stTerm(p.State.Status), "executed_sequences": executed, "plugin_calls": len(calls),
-		"running_left": countRunning(p), "status_mix_before": mix, "after": after}
+		"running_left": countRunning(p), "running_left_mix": runningMix(p), "status_mix_before": mix, "after": after}
 	if pan != "" {
 		note = "panic: " + pan
 	}
@@ -1202,6 +1212,22 @@ func child(lo, hi int, probeEvery int, out string) {
 		for _, a := range all {
 			a.Attempts = nil
 		}
+		sleep := 150 + g.r.Intn(400)
+		if i%4 == 1 {
+			// hunt for the R3 image: a continuous group of a block fails in its second round while slow sequences are in flight
+			for _, b := range p.Blocks {
+				if b.ContChecks != nil {
+					b.ContChecks.Delay = time.Millisecond
+					script[fmt.Sprintf("a%d", num[b.ContChecks.Actions[0]])] = []int{oOk, oPermanent}
+					for _, c := range []*workflow.Checks{p.BypassChecks, b.BypassChecks} {
+						if c != nil { // a bypass that succeeds would skip the block
+							script[fmt.Sprintf("a%d", num[c.Actions[0]])] = []int{oPermanent}
+						}
+					}
+					sleep = 1500
+				}
+			}
+		}
 		inner, err := sqlite.New(ctx, "", set.Reg, sqlite.WithInMemory())
 		if err != nil {
 			fmt.Fprintln(os.Stderr, "sqlite.New:", err)
@@ -1212,7 +1238,7 @@ func child(lo, hi int, probeEvery int, out string) {
 			os.Exit(3)
 		}
 		sv := &snapVault{Vault: inner, id: p.ID, max: 400}
-		sess := openSession(g.nonce, script, 150+g.r.Intn(400))
+		sess := openSession(g.nonce, script, sleep)
 		ws, err := coercion.New(ctx, set.Reg, sv, coercion.WithNoRecovery())
 		if err != nil {
 			fmt.Fprintln(os.Stderr, "coercion.New:", err)
